@@ -5,6 +5,7 @@ import (
 	"bufio"
 	"bytes"
 	"context"
+	"crypto/tls"
 	"errors"
 	"fmt"
 	"io"
@@ -26,6 +27,7 @@ import (
 	"verifharness/gen"
 	"verifharness/mon"
 	"verifharness/ref"
+	"verifharness/tlsx"
 	"verifharness/xport"
 )
 
@@ -626,7 +628,47 @@ func subDebugDialer() mon.Sub {
 				cut = c.Rng.Intn(40)
 			}
 			var headSent, reqSeen []byte
-			mkConn := func(plan xport.Plan) *fakeconn.Script {
+			// one case in five runs over wss:// : the library's own TLS client against a crypto/tls server on an
+			// in-memory duplex. What the callbacks must see is the HTTP exchange, not the TLS records around it.
+			useTLS := c.I%5 == 4 && kind != 7
+			target := "ws://dbg.example/p"
+			if useTLS {
+				target = "wss://dbg.example/p"
+			}
+			mkTLSConn := func() net.Conn {
+				cc, sc := fakeconn.BufPipe()
+				done := make(chan struct{})
+				go func() {
+					defer close(done)
+					defer sc.Close()
+					srv := tls.Server(sc, &tls.Config{Certificates: []tls.Certificate{tlsx.SelfSigned()}})
+					if srv.Handshake() != nil {
+						return
+					}
+					var raw bytes.Buffer
+					req, err := http.ReadRequest(bufio.NewReader(io.TeeReader(srv, &raw)))
+					reqSeen = append([]byte(nil), raw.Bytes()...)
+					if err != nil {
+						return
+					}
+					r := gen.BuildResp(newRand(seed), choice, gen.ReqInfo{Key: req.Header.Get("Sec-Websocket-Key"), Protocols: protos})
+					if kind == 4 {
+						r.Headers = append(r.Headers, gen.Hdr{Name: "Content-Length", Value: fmt.Sprintf(" %d", len(body))})
+					}
+					headSent = append(append([]byte(nil), r.Head()...), body...)
+					srv.Write(append(append([]byte(nil), headSent...), tr...))
+					srv.Close()
+				}()
+				return &joinConn{Conn: cc, done: done}
+			}
+			var mkScript func(plan xport.Plan) *fakeconn.Script
+			mkConn := func(plan xport.Plan) net.Conn {
+				if useTLS {
+					return mkTLSConn()
+				}
+				return mkScript(plan)
+			}
+			mkScript = func(plan xport.Plan) *fakeconn.Script {
 				conn := &fakeconn.Script{Plan: plan}
 				conn.Respond = func(written []byte) []byte {
 					reqSeen = append([]byte(nil), written...)
@@ -654,11 +696,18 @@ func subDebugDialer() mon.Sub {
 			var cur net.Conn // the connection the next NetDial call hands out
 			mkDialer := func(conn net.Conn) ws.Dialer {
 				cur = conn
-				return ws.Dialer{ReadBufferSize: rb, Protocols: protos, NetDial: func(ctx context.Context, n, a string) (net.Conn, error) { return cur, nil }}
+				return ws.Dialer{ReadBufferSize: rb, Protocols: protos, TLSConfig: &tls.Config{InsecureSkipVerify: true}, NetDial: func(ctx context.Context, n, a string) (net.Conn, error) { return cur, nil }}
 			}
 			// reference: plain dialer
 			conn0 := mkConn(plan)
-			_, _, hs0, err0 := mkDialer(conn0).Dial(context.Background(), "ws://dbg.example/p")
+			nc0, _, hs0, err0 := mkDialer(conn0).Dial(context.Background(), target)
+			if nc0 != nil {
+				nc0.Close()
+			}
+			if jc, ok := conn0.(*joinConn); ok {
+				jc.Close()
+				<-jc.done
+			}
 			// Each DebugDialer value is used for three dials in a row (a reconnect loop):
 			// every dial must behave like the first. Half of the cases carry the
 			// application's own WrapConn, which must see every connection exactly once.
@@ -681,7 +730,7 @@ func subDebugDialer() mon.Sub {
 					conn := mkConn(plan)
 					cur = conn
 					gotReq, gotResp, reqCalls, respCalls, wrapCalls = nil, nil, 0, 0, 0
-					det := map[string]interface{}{"choice": choice, "kind": kind, "plan": plan.String(), "mode": mode, "dial_number_on_this_DebugDialer": round + 1, "user_wrapconn": userWrap, "read_buf": rb, "trailing": len(tr), "cut": cut, "err_plain": fmt.Sprint(err0)}
+					det := map[string]interface{}{"choice": choice, "kind": kind, "plan": plan.String(), "mode": mode, "dial_number_on_this_DebugDialer": round + 1, "user_wrapconn": userWrap, "tls": useTLS, "read_buf": rb, "trailing": len(tr), "cut": cut, "err_plain": fmt.Sprint(err0)}
 					sigKind := []string{"valid", "valid", "valid", "valid", "non101", "invalid101", "lf-only", "truncated"}[kind]
 					if round > 0 {
 						sigKind += "/redial"
@@ -692,9 +741,16 @@ func subDebugDialer() mon.Sub {
 					var err error
 					panicked := func() (p interface{}) {
 						defer func() { p = recover() }()
-						nc, br, hs, err = dd.Dial(context.Background(), "ws://dbg.example/p")
+						nc, br, hs, err = dd.Dial(context.Background(), target)
 						return nil
 					}()
+					if jc, ok := conn.(*joinConn); ok && (err != nil || panicked != nil) {
+						jc.Close() // a failed dial: let the TLS server goroutine end before its records are compared
+						<-jc.done
+					} else if ok {
+						// the server writes the whole response and closes on its own
+						<-jc.done
+					}
 					det["response_sent"] = string(headSent)
 					if panicked != nil {
 						det["panic"] = fmt.Sprint(panicked)
@@ -738,10 +794,16 @@ func subDebugDialer() mon.Sub {
 					}
 				}
 			}
-			c.Classf("dbgdial|kind=%d|ok=%v|trail=%d|rb=%d", kind, err0 == nil, len(tr), rb)
+			c.Classf("dbgdial|kind=%d|ok=%v|trail=%d|rb=%d|tls=%v", kind, err0 == nil, len(tr), rb, useTLS)
 			c.Sample(map[string]interface{}{"kind": kind, "choice": choice, "outcome": fmt.Sprint(err0), "trailing": len(tr)})
 		},
 	}
+}
+
+// joinConn is the client end of an in-memory connection to a TLS server goroutine.
+type joinConn struct {
+	net.Conn
+	done chan struct{}
 }
 
 func main() {
@@ -750,7 +812,7 @@ func main() {
 		Property: "C11",
 		Level:    "exploration",
 		Rule: "(pair) library dialer <-> library upgrader (ws.Upgrader, and ws.HTTPUpgrader behind net/http) over an in-memory duplex, two goroutines, configurations = 8 protocol lists (incl. names differing only in case, prefixes of each other) x 6 selectors (incl. exactly the last / second offered name) x 4 extension offers x 7 extension selectors/negotiators x I/O buffer sizes {0,16,17,64,256,4096} on each side x read limiters {none,1,2,13,random} x extra header lines of length buf-2..buf+2 and 3*buf: both succeed with equal protocol/extensions or both fail. " +
-			"(single peer) the same request / response derivation run under 5 chunk plans and buffer sizes must give identical outcome, handshake data and bytes written (dialer requests compared with the random key masked). (debug wrappers) DebugUpgrader / DebugDialer with each callback combination vs the unwrapped run: same outcome and data, callbacks get exactly the bytes exchanged, post-handshake bytes preserved, each DebugDialer value used for three dials in a row with and without an application WrapConn; responses: valid 101 with trailing frames {0,1,100,5000}, non-101 with bodies, invalid 101, LF-only, empty/truncated. distinct = configuration classes.",
+			"(single peer) the same request / response derivation run under 5 chunk plans and buffer sizes must give identical outcome, handshake data and bytes written (dialer requests compared with the random key masked). (debug wrappers) DebugUpgrader / DebugDialer with each callback combination vs the unwrapped run: same outcome and data, callbacks get exactly the bytes exchanged, post-handshake bytes preserved, each DebugDialer value used for three dials in a row with and without an application WrapConn, one case in five over wss:// (the library's TLS client against a crypto/tls server on an in-memory duplex: the callbacks must see the HTTP exchange, not TLS records); responses: valid 101 with trailing frames {0,1,100,5000}, non-101 with bodies, invalid 101, LF-only, empty/truncated. distinct = configuration classes.",
 		Assumptions: []string{"a pair stuck for 60 s is inconclusive, not a violation", "requests that net/http itself refuses are not sent through DebugUpgrader"},
 		Subs:        []mon.Sub{subPairs(), subUpgraderChunking(), subDialerChunking(), subDebugUpgrader(), subDebugDialer()},
 	})
